@@ -1429,6 +1429,72 @@ pub fn gen(ctx: &Ctx, emit: &mut dyn FnMut(String)) {
             emit(format!("c01 convert - le {line}"));
         }
     }
+    // DWARF 5 line headers: every small shape of the two entry-format descriptions and entry counts
+    // (no format / no path / one path / two paths / unknown content types) — the parsers of the
+    // entries rely on what the format parser has checked
+    {
+        // (content type, form): path=1 string=0x08, directory_index=2 udata=0x0f, timestamp=3 udata,
+        // size=4 udata, MD5=5 data16=0x1e, an unknown vendor type with udata
+        let elems: [(u64, u64); 6] = [(1, 0x08), (2, 0x0f), (3, 0x0f), (4, 0x0f), (5, 0x1e), (0x2001, 0x0f)];
+        let entry = |fmt: &[(u64, u64)]| -> Vec<u8> {
+            let mut v = Vec::new();
+            for &(_, form) in fmt {
+                match form {
+                    0x08 => v.extend_from_slice(b"a\0"),
+                    0x1e => v.extend_from_slice(&[7u8; 16]),
+                    _ => v.push(0),
+                }
+            }
+            v
+        };
+        let fmts: Vec<Vec<(u64, u64)>> = vec![
+            vec![],
+            vec![elems[0]],
+            vec![elems[1]],
+            vec![elems[0], elems[1]],
+            vec![elems[0], elems[0]],
+            vec![elems[1], elems[2], elems[3]],
+            vec![elems[5]],
+            vec![elems[0], elems[4], elems[5]],
+        ];
+        for dfmt in &fmts {
+            for dcount in [0u64, 1, 2, u64::MAX] {
+                for ffmt in &fmts {
+                    for fcount in [0u64, 1, 3] {
+                        if dfmt.len() + ffmt.len() > 4 && dcount > 1 && fcount > 1 {
+                            continue;
+                        }
+                        let mut rest = vec![1u8, 1, 1, 0xfb, 14, 1];
+                        rest.push(dfmt.len() as u8);
+                        for &(c, f) in dfmt {
+                            rest.extend(uleb(c));
+                            rest.extend(uleb(f));
+                        }
+                        rest.extend(uleb(dcount));
+                        for _ in 0..dcount.min(2) {
+                            rest.extend(entry(dfmt));
+                        }
+                        rest.push(ffmt.len() as u8);
+                        for &(c, f) in ffmt {
+                            rest.extend(uleb(c));
+                            rest.extend(uleb(f));
+                        }
+                        rest.extend(uleb(fcount));
+                        for _ in 0..fcount {
+                            rest.extend(entry(ffmt));
+                        }
+                        let mut body = vec![5u8, 0, 8, 0];
+                        body.extend_from_slice(&(rest.len() as u32).to_le_bytes());
+                        body.extend(rest);
+                        body.extend_from_slice(&[0, 9, 2, 0, 0x10, 0, 0, 0, 0, 0, 0, 1, 0, 1, 1]);
+                        let mut sec = (body.len() as u32).to_le_bytes().to_vec();
+                        sec.extend(body);
+                        emit(format!("c01 line - le 8 0 {}", hex(&sec)));
+                    }
+                }
+            }
+        }
+    }
     // line programs the writer cannot express: an address left unaligned by fixed_advance_pc under
     // minimum_instruction_length > 1, DW_LNE_define_file with an empty name (both used to panic)
     for mil in [1u8, 2, 4, 8] {
